@@ -474,8 +474,8 @@ impl Expression {
                 break;
             };
 
-            // parse `...xxx`
-            if peek == '.' {
+            // parse `...xxx` (a single dot starts a number such as `.5`)
+            if peek == '.' && ps.peek_str("...") {
                 let Some(location) = ps.consume_str("...") else {
                     ps.add_warning_at_current_position(
                         ParseErrorKind::UnexpectedExpressionCharacter,
@@ -593,8 +593,8 @@ impl Expression {
                 continue;
             }
 
-            // parse `...xxx`
-            if peek == '.' {
+            // parse `...xxx` (a single dot starts a number such as `.5`)
+            if peek == '.' && ps.peek_str("...") {
                 let Some(location) = ps.consume_str("...") else {
                     ps.add_warning_at_current_position(
                         ParseErrorKind::UnexpectedExpressionCharacter,
@@ -878,9 +878,12 @@ impl Expression {
             let mut int_overflow = false;
             loop {
                 let next = ps.next().unwrap();
-                if next == 'e' {
+                if next == 'e' || next == 'E' {
                     int = None;
-                    ps.consume_str("-");
+                    // (the exponent may carry either sign)
+                    if ps.consume_str("-").is_none() {
+                        ps.consume_str("+");
+                    }
                     let peek = ps.peek::<0>()?;
                     if !('0'..='9').contains(&peek) {
                         ps.add_warning_at_current_position(
@@ -919,7 +922,11 @@ impl Expression {
                 if !is_ident_char(peek) && peek != '.' {
                     break;
                 }
-                if ('0'..='9').contains(&peek) || (int.is_some() && peek == '.') || peek == 'e' {
+                if ('0'..='9').contains(&peek)
+                    || (int.is_some() && peek == '.')
+                    || peek == 'e'
+                    || peek == 'E'
+                {
                     // empty
                 } else {
                     ps.add_warning_at_current_position(
